@@ -16,8 +16,19 @@ EXACT = ("net_attrs", "is_hostmask", "is_netmask", "netmask_bits", "prefix_table
 
 def _net(ver, v, p):
     import netaddr
-    n = netaddr.IPNetwork((v, p), version=ver)
-    assert n._value == v and n._prefixlen == p and n.version == ver
+    # "every network", however it was written: the (value, prefix) tuple, CIDR text, address/netmask text or (prefix strictly
+    # inside 0..width) address/hostmask text -- chosen from the content; all must build the same object
+    w = 32 if ver == 4 else 128
+    form = (v * 13 + p * 5 + ver) % 5
+    if form == 1:
+        n = netaddr.IPNetwork("%s/%d" % (netaddr.IPAddress(v, ver), p))
+    elif form == 2:
+        n = netaddr.IPNetwork("%s/%s" % (netaddr.IPAddress(v, ver), netaddr.IPAddress((1 << w) - (1 << (w - p)), ver)))
+    elif form == 3 and 0 < p < w:
+        n = netaddr.IPNetwork("%s/%s" % (netaddr.IPAddress(v, ver), netaddr.IPAddress((1 << (w - p)) - 1, ver)))
+    else:
+        n = netaddr.IPNetwork((v, p), version=ver)
+    assert n._value == v and n._prefixlen == p and n.version == ver, "built %r for value %#x prefix %d" % (n, v, p)
     return n
 
 
